@@ -462,10 +462,12 @@ def shard_cleanup(spec, ctx):
             now = clk.tick()
             files = {}
             for k in range(rng.randint(2, 12)):
+                # age = time since the last *access*; the entry may have been written long before (stable module read daily)
                 age = rng.choice([0, 60, 86400, 29 * 86400, 29.99 * 86400, 30.01 * 86400, 31 * 86400, 400 * 86400])
+                written = age + rng.choice([0, 0, 3600, 40 * 86400, 500 * 86400])
                 p = vdir / ('%064x-%064x.pkl' % (rng.getrandbits(200), rng.getrandbits(200)))
                 p.write_bytes(pickle.dumps(C._NodeCacheItem(None, [], 0)))
-                os.utime(p, (now - age, now - age))
+                os.utime(p, (now - age, now - written))
                 files[p] = (age, p.read_bytes())
             other = env.cd / 'not-a-version-dir.txt'
             other.write_bytes(b'keep me')
